@@ -21,6 +21,8 @@ CLAIMED = {
     "C18": ("query", "§6 C18", "Query.tla defines Matches/Select for plain keywords, the twelve suffixes (with its own regular-expression search) and callables, and the effect of bulk assignment and remove_all; seeded worlds with present/absent/None attributes are queried through every list of the API and TLC compares the returned list (order and members), the unchanged world, the bulk-assigned attributes and the post-removal structure with the model."),
     "C10": ("copy", "§6 C10", "In every reachable state of the real objects of the small universe (shared ids, 2 WBSs, links to outside tasks) each WBS is cloned and sub-treed for every selection of <=2 roots; TLC judges the copy against TaskGraph.tla's state: members, fresh objects, owner, field values, root order, hierarchy, links inside the selection reproduced, links to other members dropped, links to outside tasks kept on the same objects (mirror side included), WBS attributes, source unchanged; independence is probed by mutating each side."),
     "C13": ("csv", "§6 C13", "CsvIO.tla models the file layout at the level of rows and cells (Rows) and the reading (Parse); TLC checks Parse(Rows(W)) ~ W and the fixpoint on every bounded world (MC_CsvIO) and compares, for seeded worlds with adversarial strings, boundary dates, ids 0/negative, sparse custom attributes: the decoded written file with Rows(W), read_csv(write_csv(w)) with W, files written by the harness in the documented layout (with and without BOM) with W, and byte equality of the second and third generation files."),
+    "C19": ("render", "§6 C19", "Render.tla defines the Mermaid Gantt, Mermaid network and DHTMLX documents as abstract entry sequences/sets; seeded dated WBSs with sections, styles, milestones and adversarial single-line names are rendered by the real classes, decoded into entries by the harness (template markers, line patterns anchored on the known pool strings, json.loads) and compared by TLC: one task line per task under its section with id/dates/milestone flag, one edge per dependency and one Start edge per predecessor-free task, one JSON entry per task, uniquely numbered links, progress in 0..1, srcdoc = escaped document."),
+    "C20": ("render", "§6 C20", "Render.tla defines the rows of a sheet (depth-first, children on/off) and the link cells; WBS/task/list print() and repr() with field selections (default, subsets, unknown, upper case), themes, None names and links leaving the WBS are decoded via the header offsets and compared by TLC: line count, order, 3-space indentation per level, equal line widths, separated columns, link and parent cells with the external marker, empty cells for unknown fields; usage tables have one line per day between first and last reservation."),
 }
 NOT_YET = {}
 ALL = ["C%02d" % i for i in range(1, 21)]
@@ -59,6 +61,8 @@ def main():
                      "kind_free_text": "TLA+ CopyTrace (TaskGraph definitions); clone/subtree on every reachable state"},
                     {"name": "csv", "path": "/verif/harness/eng_csv.py", "serves_properties": ["C13"],
                      "kind_free_text": "TLA+ CsvIO/MC_CsvIO/CsvTrace"},
+                    {"name": "render", "path": "/verif/harness/eng_render.py", "serves_properties": ["C19", "C20"],
+                     "kind_free_text": "TLA+ Render/RenderTrace; documents decoded into entries by the harness"},
                     {"name": "calendar", "path": "/verif/harness/eng_calendar.py", "serves_properties": ["C17"],
                      "kind_free_text": "TLA+ Calendar/CalendarTrace; enumerated expression trees judged by TLC"}],
         "checks": checks,
